@@ -49,7 +49,11 @@ def call(par: dict, sats: list[dict]):
     try:
         with warnings.catch_warnings():
             warnings.simplefilter("ignore")
-            k = relative_permeabilities(records(sats), make_params(par["n"], par["sr"], par["km"]))
+            # the record array is the caller's: it is evaluated twice (a second rock type, or simply again) and the later answer is
+            # the one that is judged
+            rec = records(sats)
+            relative_permeabilities(rec, make_params(par["n"], par["sr"], par["km"]))
+            k = relative_permeabilities(rec, make_params(par["n"], par["sr"], par["km"]))
         rows = [{ph: float(k[KRCOL[ph]][i]) for ph in PH} for i in range(len(sats))]
         if len(k) != len(sats):
             return "error", f"returned {len(k)} records for {len(sats)}"
